@@ -42,3 +42,25 @@ Example c11_nonvacuous :
          [Arrive 1 0; Finish 1; Arrive 2 0; ConnectFail 2 0; Finish 2; Arrive 3 0; Finish 3; Arrive 4 0; Finish 4; Tick; Tick; Tick; Arrive 5 0; Arrive 6 0])
   = [Dispatched 0; NoOutcome; Dispatched 1; Dispatched 2; NoOutcome; Dispatched 0; NoOutcome; Dispatched 2; NoOutcome; NoOutcome; NoOutcome; NoOutcome; Dispatched 0; Dispatched 1]%nat.
 Proof. vm_compute. reflexivity. Qed.
+
+(* ---------------------------------------------------------------- the choice itself (Pool/PoolLive.v) *)
+From LV Require Import Pool.PoolLive.
+
+(* while some host is available a request is dispatched, whatever the balance mode: nobody is refused for want of a host *)
+Theorem a_request_is_dispatched_while_a_host_is_available : forall b s hh base,
+  some_active (hosts s) -> (length (hosts s) <= length hh)%nat -> choose b s hh base <> None.
+Proof. exact choose_finds_an_available_host. Qed.
+Print Assumptions a_request_is_dispatched_while_a_host_is_available.
+
+(* round-robin takes the first available host after the one used last; if there is none, the first available host from the start of the list
+   (the host used last included); it gives up only when no host is available *)
+Theorem round_robin_takes_the_next_available_host : forall hs last,
+  let start := Z.to_nat (Z.max 0 (last + 1)) in
+  match round_robin hs last with
+  | Some i => active_at hs i = true /\
+              ((start <= i)%nat /\ (forall j, (start <= j < i)%nat -> active_at hs j = false)
+               \/ (forall j, (start <= j)%nat -> active_at hs j = false) /\ (forall j, (j < i)%nat -> active_at hs j = false))
+  | None => forall j, active_at hs j = false
+  end.
+Proof. exact round_robin_spec. Qed.
+Print Assumptions round_robin_takes_the_next_available_host.
